@@ -2,25 +2,64 @@
 //! switched on and records one trace per compilation:
 //!   input, <hook events in program order>, return        (+ compare events for C10)
 use crate::notation::Table;
-use crate::{rsproj, run, util};
+use crate::{rsproj, run, tsproj, util};
 use serde_json::{json, Value};
 
 pub struct Compiled {
     pub outcome: run::Outcome,
     pub hooks: Vec<Value>,
     pub krate: rsproj::RCrate,
+    /// the projection of the TypeScript backend's output (None for the rasn backend)
+    pub ts: Option<tsproj::TsFile>,
 }
 
 /// compile literal sources with the hooks recording
 pub fn compile_hooked(sources: &[String]) -> Compiled {
+    compile_hooked_with(sources, "rasn")
+}
+
+pub fn compile_hooked_with(sources: &[String], backend: &str) -> Compiled {
     rasn_compiler::verif::enable();
-    let (o, _) = run::compile_rasn(sources, run::default_config());
+    let (o, _) = if backend == "typescript" { run::compile_ts(sources) } else { run::compile_rasn(sources, run::default_config()) };
     let hooks: Vec<Value> = rasn_compiler::verif::take()
         .iter()
         .map(|l| serde_json::from_str(l).unwrap_or_else(|e| json!({"hook": "unparsable", "raw": l, "err": e.to_string()})))
         .collect();
+    if backend == "typescript" {
+        let ts = if o.status == "ok" { tsproj::project(&o.generated) } else { tsproj::TsFile::default() };
+        let krate = rsproj::RCrate { parsed_ok: ts.parse_error.is_empty(), ..Default::default() };
+        return Compiled { outcome: o, hooks, krate, ts: Some(ts) };
+    }
     let krate = if o.status == "ok" { rsproj::project(&o.generated) } else { rsproj::RCrate::default() };
-    Compiled { outcome: o, hooks, krate }
+    Compiled { outcome: o, hooks, krate, ts: None }
+}
+
+/// is definition `name` of ASN.1 module `module` represented under its own mangled name in its module / namespace?
+pub fn is_present(c: &Compiled, module: &str, rust_module: &str, name: &str, is_value: bool) -> bool {
+    match &c.ts {
+        Some(ts) => {
+            let (ns, decl) = (module.replace('-', "_"), name.replace('-', "_"));
+            ts.namespaces.iter().any(|n| n.name == ns && n.decls.iter().any(|d| d.name == decl))
+        }
+        None => {
+            let rust = if is_value { rust_const_name(name) } else { name.to_string() };
+            c.krate.module(rust_module).is_some_and(|m| m.items.iter().any(|i| i.name == rust && i.kind != "impl"))
+        }
+    }
+}
+
+/// the declarations of the TypeScript output that belong to definition `name`, as canonical JSON
+pub fn ts_items_of(ts: &tsproj::TsFile, name: &str) -> Vec<String> {
+    let key = name.replace('-', "_").to_lowercase();
+    let mut v: Vec<String> = ts
+        .namespaces
+        .iter()
+        .flat_map(|n| n.decls.iter())
+        .filter(|d| d.name.to_lowercase().contains(&key))
+        .map(|d| serde_json::to_string(d).unwrap())
+        .collect();
+    v.sort();
+    v
 }
 
 pub fn sources_for(table: &Table, order: &[usize], split: bool) -> Vec<String> {
@@ -47,8 +86,12 @@ fn rust_const_name(n: &str) -> String {
 
 /// the trace of one compilation of `table` (modules handed over in `order`)
 pub fn trace_case(ci: usize, table: &Table, order: &[usize], split: bool, label: &str) -> (Vec<Value>, Compiled) {
+    trace_case_with(ci, table, order, split, label, "rasn")
+}
+
+pub fn trace_case_with(ci: usize, table: &Table, order: &[usize], split: bool, label: &str, backend: &str) -> (Vec<Value>, Compiled) {
     let srcs = sources_for(table, order, split);
-    let c = compile_hooked(&srcs);
+    let c = compile_hooked_with(&srcs, backend);
     let status = c.outcome.status.clone();
     // faults as the code reported them
     let mut fault_of = std::collections::BTreeMap::<String, &str>::new();
@@ -77,7 +120,7 @@ pub fn trace_case(ci: usize, table: &Table, order: &[usize], split: bool, label:
             .collect();
         defs.insert(table.module_name(*m), json!(list));
     }
-    let mut evs = vec![json!({"ev": "input", "case": ci, "label": label, "order": order.iter().map(|m| table.module_name(*m)).collect::<Vec<_>>(),
+    let mut evs = vec![json!({"ev": "input", "case": ci, "label": label, "backend": backend, "order": order.iter().map(|m| table.module_name(*m)).collect::<Vec<_>>(),
                               "defs": defs, "split": split, "asn": srcs.join("\n")})];
     for h in &c.hooks {
         let mut e = h.clone();
@@ -90,11 +133,8 @@ pub fn trace_case(ci: usize, table: &Table, order: &[usize], split: bool, label:
     if status == "ok" {
         for d in table.defs() {
             let n = table.printed_name(d.idx);
-            let rust = if d.k == "VALUE" { rust_const_name(&n) } else { n.clone() };
-            if let Some(module) = c.krate.module(&table.rust_module_name(d.m)) {
-                if module.items.iter().any(|i| i.name == rust && i.kind != "impl") {
-                    present.push(json!([table.module_name(d.m), n]));
-                }
+            if is_present(&c, &table.module_name(d.m), &table.rust_module_name(d.m), &n, d.k == "VALUE") {
+                present.push(json!([table.module_name(d.m), n]));
             }
         }
     }
@@ -158,21 +198,28 @@ fn strip_faults(case: &Value) -> Value {
 pub fn events_c10(ci: usize, case: &Value) -> Vec<Value> {
     let table = Table::from_json(case);
     let order: Vec<usize> = (1..=table.mods.tagdef.len()).collect();
-    let (mut evs, faulted) = trace_case(ci, &table, &order, ci % 2 == 0, "faulted");
     let base_table = Table::from_json(&strip_faults(case));
-    let base = compile_hooked(&sources_for(&base_table, &order, ci % 2 == 0));
-    if faulted.outcome.status == "ok" && base.outcome.status == "ok" {
-        let bad = affected(&table);
-        for d in table.defs() {
-            if d.fault != "none" {
-                continue;
+    let mut evs = vec![];
+    // the same pipeline runs in front of either backend: one trace per backend
+    for backend in ["rasn", "typescript"] {
+        let (tr, faulted) = trace_case_with(ci, &table, &order, ci % 2 == 0, "faulted", backend);
+        evs.extend(tr);
+        let base = compile_hooked_with(&sources_for(&base_table, &order, ci % 2 == 0), backend);
+        if faulted.outcome.status == "ok" && base.outcome.status == "ok" {
+            let bad = affected(&table);
+            for d in table.defs() {
+                if d.fault != "none" {
+                    continue;
+                }
+                let name = table.def_name(d.idx);
+                let (a, b) = match (&base.ts, &faulted.ts) {
+                    (Some(x), Some(y)) => (ts_items_of(x, &name), ts_items_of(y, &name)),
+                    _ => (items_of(&base.krate, &name), items_of(&faulted.krate, &name)),
+                };
+                evs.push(json!({"ev": "compare", "case": ci, "backend": backend, "def": name, "depends_on_fault": bad.contains(&d.idx),
+                                "same": a == b, "items_baseline": a.len(), "items_faulted": b.len(),
+                                "asn": table.def_text(d.idx)}));
             }
-            let name = table.def_name(d.idx);
-            let a = items_of(&base.krate, &name);
-            let b = items_of(&faulted.krate, &name);
-            evs.push(json!({"ev": "compare", "case": ci, "def": name, "depends_on_fault": bad.contains(&d.idx),
-                            "same": a == b, "items_baseline": a.len(), "items_faulted": b.len(),
-                            "asn": table.def_text(d.idx)}));
         }
     }
     evs
@@ -350,7 +397,15 @@ pub fn events_abs(ci: usize, case: &Value) -> Vec<Value> {
     }
     let split = ci % 2 == 0;
     let sources = if split { srcs.clone() } else { vec![srcs.join("\n")] };
-    let c = compile_hooked(&sources);
+    let mut all = vec![];
+    for backend in ["rasn", "typescript"] {
+        all.extend(abs_trace(ci, backend, &order, &printed, &sources, split));
+    }
+    all
+}
+
+fn abs_trace(ci: usize, backend: &str, order: &[String], printed: &[Vec<(String, String, String)>], sources: &[String], split: bool) -> Vec<Value> {
+    let c = compile_hooked_with(sources, backend);
     let status = c.outcome.status.clone();
     let mut fault_of = std::collections::BTreeMap::<String, &str>::new();
     for h in &c.hooks {
@@ -372,7 +427,7 @@ pub fn events_abs(ci: usize, case: &Value) -> Vec<Value> {
             .collect();
         defs.insert(m.clone(), json!(list));
     }
-    let mut evs = vec![json!({"ev": "input", "case": ci, "label": "abstract", "order": order, "defs": defs, "split": split,
+    let mut evs = vec![json!({"ev": "input", "case": ci, "label": "abstract", "backend": backend, "order": order, "defs": defs, "split": split,
                               "asn": sources.join("\n")})];
     for h in &c.hooks {
         let mut e = h.clone();
@@ -384,11 +439,8 @@ pub fn events_abs(ci: usize, case: &Value) -> Vec<Value> {
     if status == "ok" {
         for (i, m) in order.iter().enumerate() {
             for (n, kind, _) in &printed[i] {
-                let rust = if kind == "value" { n.to_uppercase() } else { n.clone() };
-                if let Some(module) = c.krate.module(&m.to_lowercase()) {
-                    if module.items.iter().any(|it| it.name == rust && it.kind != "impl") {
-                        present.push(json!([m, n]));
-                    }
+                if is_present(&c, m, &m.to_lowercase(), n, kind == "value") {
+                    present.push(json!([m, n]));
                 }
             }
         }
